@@ -370,7 +370,7 @@ def run(ck, facts, tier):
     # "rejected ... and never yield rates", "returned exactly as quoted" also after updates and derivative-order switches: the market's state rules (C10 R10.3-R10.6)
     # "invalid quote sets are rejected and never yield rates" also when they arrive as a stored market: the loader goes through try_new (C20 S20.2)
     from rules import c20
-    c20.loader_rule(ck, facts, only={"fx::rates::FXRates"})
+    c20.loader_rule(ck, facts, only={"fx::rates::FXRates", "fx::rates::ccy::Ccy", "fx::rates::fxpair::FXPair"})
     # ... and a stored market's quotes come back exactly: the float text round trip of the JSON layer is exact (C16 S16.1)
     from rules import c16
     nd16, tb16 = list(ck.not_decided), list(ck.trusted)
